@@ -461,3 +461,206 @@ func H_C05_nested() {
 	}
 	vfAssert(out == want, "nested loops over pooled rangers interleave correctly")
 }
+
+// ---- generated nestings (thorough) ----
+
+// c05Gen builds a construct of the given kind around the rendered inner template / its
+// reference output, with symbolic conditions and element counts drawn under tag.
+//   kind 0: if c ... end                 1: if c ... else ELSE end
+//   kind 2: if c1 A else if c2 ... else ELSE end
+//   kind 3: range s (no variable; '.' is the element)      4: range k, v := s ... else ELSE end
+//   kind 5: range v = s (pre-declared)
+// inner is placed in the body (place 0) or in the else branch (place 1, kinds with else).
+func c05Gen(tag string, kind, place int, inner func(dot string) (string, string), dot string, vars VarMap) (src string, want string) {
+	in := func(d string) (string, string) {
+		if inner == nil {
+			return "x", "x"
+		}
+		return inner(d)
+	}
+	switch kind {
+	case 0, 1, 2:
+		c1, c2 := ndBool(tag+".c1"), ndBool(tag+".c2")
+		vars.Set(tag+"c1", c1)
+		vars.Set(tag+"c2", c2)
+		bs, bw := in(dot)
+		body, alt := "T"+bs, "E"
+		bodyW, altW := "T"+bw, "E"
+		if place == 1 && kind != 0 {
+			body, alt, bodyW, altW = "T", "E"+bs, "T", "E"+bw
+		}
+		switch kind {
+		case 0:
+			src = `{{ if ` + tag + `c1 }}` + body + `{{ end }}`
+			if c1 {
+				want = bodyW
+			}
+		case 1:
+			src = `{{ if ` + tag + `c1 }}` + body + `{{ else }}` + alt + `{{ end }}`
+			want = altW
+			if c1 {
+				want = bodyW
+			}
+		default:
+			src = `{{ if ` + tag + `c1 }}A{{ else if ` + tag + `c2 }}` + body + `{{ else }}` + alt + `{{ end }}`
+			switch {
+			case c1:
+				want = "A"
+			case c2:
+				want = bodyW
+			default:
+				want = altW
+			}
+		}
+		return
+	}
+	n := ndChoice(tag+".n", 3)
+	elems := make([]string, n)
+	for i := range elems {
+		elems[i] = tag + ndItoa(i)
+	}
+	vars.Set(tag+"s", elems)
+	head := map[int]string{3: `{{ range ` + tag + `s }}`, 4: `{{ range ` + tag + `k, ` + tag + `v := ` + tag + `s }}`, 5: `{{ ` + tag + `v := "" }}{{ range ` + tag + `v = ` + tag + `s }}`}[kind]
+	// the inner construct is rendered once per element (place 0) or in the else branch
+	if place == 1 {
+		es, ew := in(dot)
+		src = head + `[{{ . }}]{{ else }}E` + es + `{{ end }}`
+		for _, e := range elems {
+			d := dot
+			if kind == 3 || kind == 5 {
+				d = e
+			}
+			want += "[" + d + "]"
+		}
+		if n == 0 {
+			want = "E" + ew
+		}
+		return
+	}
+	src = head + `[{{ . }}]`
+	first := true
+	for _, e := range elems {
+		d := dot
+		if kind == 3 || kind == 5 {
+			d = e // the one-variable form binds the index and leaves the element as '.'
+		}
+		bs, bw := in(d)
+		if first {
+			src += bs
+			first = false
+		}
+		want += "[" + d + "]" + bw
+	}
+	if first {
+		bs, _ := in(dot)
+		src += bs
+	}
+	src += `{{ else }}E{{ end }}`
+	if n == 0 {
+		want = "E"
+	}
+	return
+}
+
+// H_C05_generated (thorough): every nesting of two constructs out of six kinds (if,
+// if/else, if/else-if/else, and range in its no-variable, two-variable := and one-variable
+// = forms), the inner one in the outer's body or else branch, with symbolic conditions and
+// symbolic element counts (0..2): the output equals a reference evaluation - exactly one
+// branch of every chain, once per element in order, else iff empty, '.' rebound only by
+// the no-variable and one-variable ranges and restored afterwards.
+//
+//gosym:reach rendered
+//gosym:thorough-only
+//gosym:opts maxpaths=400000 wall=1500
+func H_C05_generated() {
+	ko, ki := ndChoice("outer", 6), ndChoice("inner", 7)
+	po, pi := ndChoice("outer.place", 2), ndChoice("inner.place", 2)
+	vars := make(VarMap)
+	var inner func(dot string) (string, string)
+	if ki < 6 {
+		// the inner construct's template text must not depend on the iteration, only its
+		// reference output does (through '.'): conditions and counts are drawn once
+		var memoSrc string
+		drawn := false
+		innerVars := vars
+		var c1, c2 bool
+		var n int
+		inner = func(dot string) (string, string) {
+			if !drawn {
+				drawn = true
+				s, _ := c05Gen("i", ki, pi, nil, dot, innerVars)
+				memoSrc = s
+				if ki <= 2 {
+					c1, _ = innerVars["ic1"].Interface().(bool)
+					c2, _ = innerVars["ic2"].Interface().(bool)
+				} else {
+					n = innerVars["is"].Len()
+				}
+			}
+			return memoSrc, c05InnerWant(ki, pi, c1, c2, n, dot)
+		}
+	}
+	src, want := c05Gen("o", ko, po, inner, "D", vars)
+	set := hxSet(nil, "/m.jet", src+`|{{ . }}`)
+	out, err := hxExec(set, "/m.jet", vars, "D")
+	vfReach("rendered")
+	vfNote(src)
+	vfAssert(err == nil, "renders")
+	vfNote(out)
+	vfAssert(out == want+"|D", "one branch per chain, once per element in order, else iff empty, '.' restored")
+}
+
+// c05InnerWant: the reference output of an inner construct (without further nesting) whose
+// conditions / element count are fixed, when '.' is dot at its position.
+func c05InnerWant(kind, place int, c1, c2 bool, n int, dot string) string {
+	switch kind {
+	case 0:
+		if c1 {
+			return "Tx"
+		}
+		return ""
+	case 1:
+		if place == 1 {
+			if c1 {
+				return "T"
+			}
+			return "Ex"
+		}
+		if c1 {
+			return "Tx"
+		}
+		return "E"
+	case 2:
+		switch {
+		case c1:
+			return "A"
+		case c2:
+			if place == 1 {
+				return "T"
+			}
+			return "Tx"
+		}
+		if place == 1 {
+			return "Ex"
+		}
+		return "E"
+	}
+	if n == 0 {
+		if place == 1 {
+			return "Ex"
+		}
+		return "E"
+	}
+	w := ""
+	for i := 0; i < n; i++ {
+		d := dot
+		if kind == 3 || kind == 5 {
+			d = "i" + ndItoa(i)
+		}
+		w += "[" + d + "]"
+		if place == 0 {
+			w += "x"
+		}
+	}
+	return w
+}
